@@ -545,6 +545,11 @@ impl<'a> Explorer<'a> {
                 l.stats.class("panic");
                 if cap >= min {
                     self.vio(l, "C06", "panic", format!("call panicked with capacity {} >= minimum {}: {}", cap, min, m), id, &call);
+                    if or.twin && cfg.repl {
+                        // does the documented manual procedure get through where the with-replacement
+                        // method panics?
+                        self.twin_after_panic(l, id, &call, &m);
+                    }
                     if or.encoding_used && cfg.bom != BomMode::Off {
                         // BOM handling must work for any split: a panic while bytes are (or were just)
                         // withheld means they are not delivered at all
@@ -850,6 +855,29 @@ impl<'a> Explorer<'a> {
                     return;
                 }
                 l.succs.push(Succ { parent: id, call, fresh, to: Err(Arc::new(nk)), weight, hash: h })
+            }
+        }
+    }
+
+    fn twin_after_panic(&self, l: &mut Local, parent: u32, call: &Call, panic: &str) {
+        let cfg = self.cfg;
+        let mut chunks: Vec<Vec<u8>> = vec![];
+        for (c, fresh) in self.path(parent).iter() {
+            if *fresh || chunks.is_empty() {
+                chunks.push(c.src.clone());
+            }
+        }
+        // the failing call's source is either a new chunk or the remainder of the current one
+        let parent_key = &self.keys[parent as usize];
+        if parent_key.in_chunk() && !chunks.is_empty() {
+            // remainder: already part of the last chunk
+        } else {
+            chunks.push(call.src.clone());
+        }
+        let refs: Vec<&[u8]> = chunks.iter().map(|c| c.as_slice()).collect();
+        if let Ok(m) = decode_chunks_ample(&cfg.enc, cfg.bom, cfg.sink, false, &refs, call.last) {
+            if m.panic.is_none() {
+                self.vio(l, "C09", "replacement-panics-manual-succeeds", format!("the with-replacement method panicked ({}) where the documented manual procedure on the same chunks yields [{}]", panic, toks_short(&fold_repl(&m.toks))), parent, call);
             }
         }
     }
@@ -1181,60 +1209,74 @@ impl<'a> Explorer<'a> {
                     }
                 }
             }
-            let t_par = std::time::Instant::now();
-            let locals: Vec<Local> = par_map(&items, cfg.threads, |&(id, lo, hi)| {
-                // a panic here is a panic of the harness (those of the code under test are caught
-                // per call); it can be the consequence of memory corrupted by the code under test
-                match std::panic::catch_unwind(std::panic::AssertUnwindSafe(|| self.expand(id, lo, hi))) {
-                    Ok(l) => l,
-                    Err(e) => {
-                        let mut l = Local::default();
-                        l.stats = Stats::new();
-                        l.vios.add(Violation { prop: "MACHINERY".into(), kind: "harness-panic".into(), msg: format!("harness panicked while expanding a state of {}: {}", self.cfg.label(), crate::imp::panic_msg(e)), replay: J::obj() });
-                        l
-                    }
-                }
-            });
-            let d_par = t_par.elapsed().as_secs_f64();
-            let t_merge = std::time::Instant::now();
-            let n_items = items.len();
             let mut next: Vec<u32> = vec![];
             let mut class_total = vec![0u64; 26 * 100];
-            for l in locals {
-                for (i, c) in l.class_counts.iter() {
-                    if let Some(x) = class_total.get_mut(*i as usize) {
-                        *x += c;
+            // batches bound the transient memory of a level (successors found by many workers)
+            let mut stop_level = false;
+            for batch in items.chunks(1536) {
+                let t_par = std::time::Instant::now();
+                let locals: Vec<Local> = par_map(batch, cfg.threads, |&(id, lo, hi)| {
+                    // a panic here is a panic of the harness (those of the code under test are caught
+                    // per call); it can be the consequence of memory corrupted by the code under test
+                    match std::panic::catch_unwind(std::panic::AssertUnwindSafe(|| self.expand(id, lo, hi))) {
+                        Ok(l) => l,
+                        Err(e) => {
+                            let mut l = Local::default();
+                            l.stats = Stats::new();
+                            l.vios.add(Violation { prop: "MACHINERY".into(), kind: "harness-panic".into(), msg: format!("harness panicked while expanding a state of {}: {}", self.cfg.label(), crate::imp::panic_msg(e)), replay: J::obj() });
+                            l
+                        }
                     }
-                }
-                stats.merge(&l.stats);
-                vios.merge(l.vios);
-                if cfg.or.graph {
-                    self.edges.extend_from_slice(&l.edges);
-                }
-                for s in l.succs {
-                    let to = match s.to {
-                        Ok(i) => i,
-                        Err(k) => match self.index.find(s.hash, |i| *self.keys[i as usize] == *k) {
-                            Some(i) => i,
-                            None => {
-                                let i = self.nodes.len() as u32;
-                                if k.fin {
-                                    stats.finished_states += 1;
-                                }
-                                self.nodes.push(NodeMeta { parent: s.parent, call: s.call.clone(), fresh: s.fresh, depth });
-                                self.keys.push(k.clone());
-                                self.index.insert(s.hash, i);
-                                next.push(i);
-                                i
-                            }
-                        },
-                    };
+                });
+                let d_par = t_par.elapsed().as_secs_f64();
+                let t_merge = std::time::Instant::now();
+                let n_items = batch.len();
+                for l in locals {
+                    for (i, c) in l.class_counts.iter() {
+                        if let Some(x) = class_total.get_mut(*i as usize) {
+                            *x += c;
+                        }
+                    }
+                    stats.merge(&l.stats);
+                    vios.merge(l.vios);
                     if cfg.or.graph {
-                        if let Some(w) = s.weight {
-                            self.edges.push((s.parent, to, w));
+                        self.edges.extend_from_slice(&l.edges);
+                    }
+                    for s in l.succs {
+                        let to = match s.to {
+                            Ok(i) => i,
+                            Err(k) => match self.index.find(s.hash, |i| *self.keys[i as usize] == *k) {
+                                Some(i) => i,
+                                None => {
+                                    let i = self.nodes.len() as u32;
+                                    if k.fin {
+                                        stats.finished_states += 1;
+                                    }
+                                    self.nodes.push(NodeMeta { parent: s.parent, call: s.call.clone(), fresh: s.fresh, depth });
+                                    self.keys.push(k.clone());
+                                    self.index.insert(s.hash, i);
+                                    next.push(i);
+                                    i
+                                }
+                            },
+                        };
+                        if cfg.or.graph {
+                            if let Some(w) = s.weight {
+                                self.edges.push((s.parent, to, w));
+                            }
                         }
                     }
                 }
+                if rss_bytes() > rss_cap_bytes() || self.nodes.len() > cfg.max_states {
+                    stop_level = true;
+                    break;
+                }
+            }
+            if stop_level {
+                stats.exhaustive = false;
+                stats.caps_hit.push(format!("{}: stopped inside depth {} with {} states (memory cap {} GB or state cap {} reached); everything below that depth was explored completely", cfg.label(), depth, self.nodes.len(), rss_cap_bytes() >> 30, cfg.max_states));
+                stats.max_depth = depth as u64;
+                break;
             }
             for (i, c) in class_total.iter().enumerate() {
                 if *c > 0 {
@@ -1242,7 +1284,7 @@ impl<'a> Explorer<'a> {
                 }
             }
             if std::env::var("VERIF_PROF").is_ok() {
-                eprintln!("level {} items {} par {:.3}s merge {:.3}s nodes {}", depth, n_items, d_par, t_merge.elapsed().as_secs_f64(), self.nodes.len());
+                eprintln!("level {} items {} nodes {}", depth, items.len(), self.nodes.len());
             }
             stats.max_depth = depth as u64;
             if vios.total() >= 500 {
